@@ -57,6 +57,12 @@ def nameok (kind : String) (s : Str) : String :=
             | [t] => (match findAll N.name t with | n :: _ => n.flatten == s | [] => false)
             | _ => false)
         | _ => false)
+  -- the DOM factories (what the model's `step` accepts as a name)
+  | "dom-pi" => b2s (Dom.validPITarget s && Dom.validPI s ['d'])
+  | "dom-elem" | "dom-attr" => b2s (Dom.validQName s)
+  | "dom-entref" => b2s (Dom.validName s && (predefined.find? (·.1 == s)).isSome)
+  | "spec-dom-entref" => b2s ((predefined.find? (·.1 == s)).isSome)
+  | "lax-dom-pi" | "lax-dom-elem" | "lax-dom-attr" | "lax-dom-entref" => "0"
   -- the Recommendation's answer (specification side, used by the monitor)
   | "spec-name" => b2s (Spec.isName s)
   | "spec-ncname" => b2s (Spec.isNCName s)
